@@ -150,10 +150,19 @@ impl EventSource for EventSender<'_> {
             kind: EventKind::Normal,
             co: Some(co),
         });
-        if let Some(w) = self.cqueue.to_wake.take() {
+        let w = self.cqueue.to_wake.take();
+        if let Some(w) = w.as_ref() {
             w.unpark();
         }
+        // Release the arm *before* the blocker is dropped. This may be the
+        // last reference of the poller's blocker, and `Park::drop` waits until
+        // the poller's own `Park::subscribe` has returned. That frame can be
+        // below the poller itself (`fast_wake_up` resumes it in place), and the
+        // poller runs our arm inside `poll`, where the arm spins in `send` on
+        // `wait_kernel` without yielding: dropping first would dead-lock.
+        // From here on neither `self` nor the cqueue may be used any more.
         self.wait_kernel.store(false, Ordering::Release);
+        drop(w);
     }
 
     fn yield_back(&self, _cancel: &'static Cancel) {
